@@ -354,7 +354,11 @@ def find_octopus_base(
                 shallows=parents_provider.shallows,
             )
             next_lcas.extend(res)
-        lcas = next_lcas[:]
+        # The per-candidate results overlap and can be ancestors of one
+        # another (criss-cross histories): keep the maximal ones, once each.
+        lcas = list(dict.fromkeys(next_lcas))
+        if len(lcas) > 1:
+            lcas = _remove_redundant(lookup_parents, lcas, parents_provider.shallows)
     return lcas
 
 
